@@ -53,9 +53,17 @@ func (c *compiler) compileChange(achange *parse.Change) *Change {
 	ldots := mc.dots
 	rdots := rc.dots
 	if err := connectDots(c.fset, ldots, rdots, rc.dotAssoc); err != nil {
-		// Without its partner a "..." of the "+" section would
-		// silently stand for nothing.
-		c.errors = append(c.errors, err)
+		// Without its partner a "..." written in the "+" section would
+		// silently stand for nothing. The "..." implied around a list
+		// of statements is another matter: when the "-" section is a
+		// declaration and the "+" section statements, they have no
+		// partner and stand for nothing, which is right.
+		for _, r := range rdots {
+			if _, ok := rc.dotAssoc[r]; !ok && r != rc.patchStart-1 && r != rc.patchEnd {
+				c.errors = append(c.errors, err)
+				break
+			}
+		}
 	}
 
 	return &Change{
